@@ -240,6 +240,18 @@ pub fn run_app(
             .unwrap_or_else(|| panic!("Failed to open stdout"));
         let cmd_stdout_buf = io::BufReader::new(cmd_stdout);
 
+        // The command's stderr is collected while its stdout is being rendered: left unread, a
+        // command that writes more diagnostics than a pipe holds would block, and delta with it.
+        let mut cmd_stderr = cmd
+            .stderr
+            .take()
+            .unwrap_or_else(|| panic!("Failed to open stderr"));
+        let stderr_collector = std::thread::spawn(move || {
+            let mut collected = Vec::new();
+            let _ = io::Read::read_to_end(&mut cmd_stderr, &mut collected);
+            collected
+        });
+
         let res = delta(cmd_stdout_buf.byte_lines(), &mut writer, &config);
 
         if let Err(error) = res {
@@ -264,11 +276,8 @@ pub fn run_app(
                 config.error_exit_code
             });
 
-        let mut stderr_lines = io::BufReader::new(
-            cmd.stderr
-                .unwrap_or_else(|| panic!("Failed to open stderr")),
-        )
-        .lines();
+        let collected_stderr = stderr_collector.join().unwrap_or_default();
+        let mut stderr_lines = io::BufReader::new(&collected_stderr[..]).lines();
         if let Some(line1) = stderr_lines.next() {
             // prefix the first error line with the called subcommand
             eprintln!(
